@@ -790,7 +790,7 @@ func (i *interpreter) globalAddr(g *ssa.Global) *value {
 }
 
 // globals of non-initialised std packages that may be read as zero values.
-var zeroGlobalOK = map[string]bool{}
+var zeroGlobalOK = map[string]bool{"net/http.DefaultTransport": true, "log/slog.DiscardHandler": true}
 
 func (i *interpreter) runInit(pkg *ssa.Package) {
 	if i.initDone[pkg] {
